@@ -29,7 +29,7 @@ static TFamilyDescr Descrs[] = {
         {         "S12Z", 0x0045,   eHexFormatMotoS},
         {       "68HC16", 0x0065,   eHexFormatMotoS},
         {       "68RS08", 0x005e,   eHexFormatMotoS},
-        {    "H8/300(H}", 0x0068,   eHexFormatMotoS},
+        {    "H8/300(H)", 0x0068,   eHexFormatMotoS},
         {       "H8/500", 0x0069,   eHexFormatMotoS},
         {          "H16", 0x0040,   eHexFormatMotoS},
         {       "SH7x00", 0x006c,   eHexFormatMotoS},
